@@ -288,6 +288,39 @@ theorem batch_delete_total_no_region_error (m : Store) (G : Layout) (keys : List
     unfold batchDelete; rw [hs]
   exact ⟨s.store, s.trace, hb, batch_delete_exact m _ keys _ _ hb⟩
 
+/-! ### total correctness of the batch calls for EVERY complete run: any grouping layouts (stale or not), any
+pattern of batches that meet a region error and are re-grouped, to any depth (`Completes`, Model/RawKV.lean) -/
+
+theorem batch_get_total (m : Store) (keys : List Bytes) (e : BEntry) (sc sc' : BScript)
+    (h : Completes mkKeyBatches id (mkKeyBatches e.layout (keys.map fun k => ((k, []) : Item))) e.outs sc sc') :
+    ∃ tr, batchGet m (e :: sc) keys = some (keys.map m.get, tr) := by
+  have hc := sendBatch_completes mkKeyBatches id execGet (BState.init m) (keys.map fun k => ((k, []) : Item)) e sc sc' h
+  have hrun : ∃ s, batchGetRun m (e :: sc) keys = (s, some sc') := ⟨_, Prod.ext rfl hc⟩
+  obtain ⟨s, hs⟩ := hrun
+  have hb : batchGet m (e :: sc) keys =
+      some (keys.map (s.pairs.foldl (fun acc p => acc.insert p.1 p.2) OMap.empty).get, s.trace) := by
+    unfold batchGet; rw [hs]
+  exact ⟨s.trace, by rw [hb, ← batch_get_positional m _ keys _ _ hb]⟩
+
+theorem batch_put_total (m : Store) (items : List Item) (e : BEntry) (sc sc' : BScript)
+    (h : Completes mkPutBatches lastWins (mkPutBatches e.layout (lastWins items)) e.outs sc sc') :
+    ∃ m' tr, batchPut m (e :: sc) items = some (m', tr) ∧
+      ∀ k, m'.get k = (items.foldl (fun a it => a.insert it.1 it.2) m).get k := by
+  have hc := sendBatch_completes mkPutBatches lastWins execPut (BState.init m) items e sc sc' h
+  have hrun : ∃ s, batchPutRun m (e :: sc) items = (s, some sc') := ⟨_, Prod.ext rfl hc⟩
+  obtain ⟨s, hs⟩ := hrun
+  have hb : batchPut m (e :: sc) items = some (s.store, s.trace) := by unfold batchPut; rw [hs]
+  exact ⟨s.store, s.trace, hb, batch_put_last_wins m _ items _ _ hb⟩
+
+theorem batch_delete_total (m : Store) (keys : List Bytes) (e : BEntry) (sc sc' : BScript)
+    (h : Completes mkKeyBatches id (mkKeyBatches e.layout (keys.map fun k => ((k, []) : Item))) e.outs sc sc') :
+    ∃ m' tr, batchDelete m (e :: sc) keys = some (m', tr) ∧ ∀ k, m'.get k = if k ∈ keys then none else m.get k := by
+  have hc := sendBatch_completes mkKeyBatches id execDelete (BState.init m) (keys.map fun k => ((k, []) : Item)) e sc sc' h
+  have hrun : ∃ s, batchDeleteRun m (e :: sc) keys = (s, some sc') := ⟨_, Prod.ext rfl hc⟩
+  obtain ⟨s, hs⟩ := hrun
+  have hb : batchDelete m (e :: sc) keys = some (s.store, s.trace) := by unfold batchDelete; rw [hs]
+  exact ⟨s.store, s.trace, hb, batch_delete_exact m _ keys _ _ hb⟩
+
 /-- Get / Put / Delete / CompareAndSwap complete as soon as one attempt is served (any number of region errors and
     any layouts before it), and are atomic: one region request, the served one, is their linearisation point. -/
 theorem single_key_total (m : Store) (sc : SScript) (L : Layout) (hL : some L ∈ sc) (k v : Bytes) (prev : Option Bytes) :
@@ -467,5 +500,9 @@ example : (deleteRangeRun m0 [some [[0x6c]]] [] []).2.2 = false ∧
     (deleteRangeRun m0 [some [[0x6c]]] [] []).1.get [0x6b] = none ∧
     (deleteRangeRun m0 [some [[0x6c]]] [] []).1.get [0x70] = some [3] := ⟨rfl, rfl, rfl⟩
 example : some [[0x6c]] ∈ ([none, some [[0x6c]], none] : SScript) := by simp
+-- `Completes` is inhabited by a run with a region error: keys 6b | 70 grouped with split point 6c, the second batch fails
+-- and is re-grouped (no split point any more) into one served batch
+example : Completes mkKeyBatches id (mkKeyBatches [[0x6c]] [([0x6b], []), ([0x70], [])]) [true, false] [⟨[], [true]⟩] [] :=
+  Completes.served (Completes.regrouped (Completes.served (Completes.nil _)) (Completes.nil _))
 
 end CGV.Props.C11
